@@ -1285,6 +1285,51 @@ def enum_entries(ctx):
                        "labels": ["scope:" + sk]}
 
 
+# ---- type annotations x values: coercion and conformance reached through FEEL text ---------------------------------------
+
+T_SIMPLE = ["number", "string", "boolean", "Any", "Null", "date", "time", "date and time", "days and time duration", "years and months duration"]
+T_VALUES = ["1", "-0.5", '"a"', "true", "null", "[]", "[1]", "[1, 2]", '["a"]', "[[]]", "[[1]]", "[null]", "[{a: 1}]", "{}", "{a: 1}", '{a: 1, b: "x"}', "{a: {b: 1}}",
+            "[1..2]", "(1..2)", '["a".."b"]', "[[1..2]]", '@"2021-01-01"', '@"10:00:00"', '@"2021-01-01T10:00:00Z"', '@"P1D"', '@"P1Y"', "abs", "count",
+            "function() 1", "function(a) a", "function(a: number) a", "function(a, b) a", "function(a: number, b: string) a", "function(a, b, c) 1",
+            "function(a: list<number>) a", "function(f: function<number> -> Any) f(1)", "[function(a) a]", "[function() 1, function() 2]"]
+
+
+def g_type(src, depth=2):
+    k = "simple" if depth <= 0 else src.weighted([(5, "simple"), (2, "list"), (1, "range"), (2, "context"), (3, "function")])
+    if k == "simple":
+        return src.choice(T_SIMPLE)
+    if k == "list":
+        return "list<%s>" % g_type(src, depth - 1)
+    if k == "range":
+        return "range<%s>" % g_type(src, 0)
+    if k == "context":
+        names = src.sample(["a", "b", "c"], src.int(1, 3))
+        return "context<%s>" % ", ".join("%s: %s" % (n, g_type(src, depth - 1)) for n in sorted(names))
+    return "function<%s> -> %s" % (", ".join(g_type(src, depth - 1) for _ in range(src.int(0, 3))), g_type(src, depth - 1))
+
+
+def gen_typed(src):
+    """a value meets a type annotation: typed formal parameter (positional / named invocation, in a context entry, passed on to an inner typed
+    function), and `instance of`; types to depth 2 incl. function types of 0..3 parameters, values incl. function definitions of other arities"""
+    ty, v = g_type(src), src.choice(T_VALUES)
+    form = src.weighted([(4, "positional"), (3, "named"), (3, "entry"), (2, "instance"), (2, "apply"), (1, "list-arg"), (1, "two")])
+    if form == "positional":
+        text = "(function(p: %s) p)(%s)" % (ty, v)
+    elif form == "named":
+        text = "{g: function(p: %s) p, r: g(p: %s)}.r" % (ty, v)
+    elif form == "entry":
+        text = "{g: function(p: %s) [p, p], r: g(%s)}.r" % (ty, v)
+    elif form == "instance":
+        text = "%s instance of %s" % (v if not v.startswith("function") else "(" + v + ")", ty)
+    elif form == "apply":
+        text = "{apply: function(f: %s) f(1, 2), r: apply(%s)}.r" % (ty, v)
+    elif form == "list-arg":
+        text = "(function(p: %s) p)([%s])" % (ty, v)
+    else:
+        text = "(function(p: %s, q: %s) [p, q])(%s, %s)" % (ty, g_type(src, 1), v, src.choice(T_VALUES))
+    return {"t": text, "es": ["textual"], "s": [], "sk": "", "cls": "typed", "k": 10 ** 6, "labels": ["typed:" + form, "typed-type:" + ty.split("<")[0]]}
+
+
 # ---- iteration domains at the edges of the integer range; recursion ---------------------------------------------------
 
 ITER_BUDGET = 0.5    # this part's requests take microseconds; its own budget keeps a confirmed hang at 5 s
@@ -1422,6 +1467,7 @@ def setup(ctx):
     ctx.p_local = ctx.register(Part("local-zone", None, lambda case: [], judge_local_zone, profile="both"))
     ctx.p_fuzz = mkpart(ctx, "fuzz")
     ctx.p_grammar = mkpart(ctx, "grammar", gen_grammar)
+    ctx.p_typed = mkpart(ctx, "typed", gen_typed)
     ctx.max_violations = 10 ** 6 if EXPLORE else 1
 
 
@@ -1520,6 +1566,8 @@ def run(ctx):
         done(ctx, "unicode")
     if want(ctx.p_grammar):
         ctx.forall(ctx.p_grammar, ctx.scale(12000, 600000), batch=400)
+    if want(ctx.p_typed):
+        ctx.forall(ctx.p_typed, ctx.scale(12000, 600000), batch=400)
         done(ctx, "grammar")
 
 
